@@ -146,7 +146,7 @@ DefFor(s) ==        \* set of definitions statement s needs
     [] s.kw = "if-feature" /\ LenientLocal(s.arg) # "" -> {Lf("feature", LenientLocal(s.arg))}
     [] s.kw = "base" /\ LenientLocal(s.arg) # "" -> {Lf("identity", LenientLocal(s.arg))}
     [] s.kw = "type" /\ LenientLocal(s.arg) # "" /\ LenientLocal(s.arg) \notin Builtin -> {St("typedef", LenientLocal(s.arg), <<TypeStr>>)}
-    [] s.kw = ExtKw -> {St("extension", "ext", <<Lf("argument", "a")>>)}
+    [] IsExtKw(s.kw) /\ Len(s.kw) > 2 /\ SubSeq(s.kw, 1, 2) = "p:" -> {St("extension", SubSeq(s.kw, 3, Len(s.kw)), <<Lf("argument", "a")>>)}
     [] s.kw \in {"augment", "deviation"} /\ s.arg = "/tc" -> {Lf("container", "tc")}
     [] s.kw \in {"deviation", "path"} /\ Len(s.arg) = 4 /\ SubSeq(s.arg, 1, 3) = "/tl" -> {St("leaf", SubSeq(s.arg, 2, 4), <<TypeStr>>)}
     [] s.kw \in {"augment", "deviation"} /\ Len(s.arg) >= 1 /\ SubSeq(s.arg, 1, 1) = "/" /\ Len(StepNames(s.arg)) >= 1 /\ (\A i \in 1..Len(StepNames(s.arg)) : StepNames(s.arg)[i] # "")
@@ -338,7 +338,7 @@ RandPool(u) == [j \in 1..6 |-> IF j <= 3 THEN Mk(RandomElement(PoolKw), 7, "modu
    distinct suffix).  The verdict is read off the same table cell (CellVerdict), and YangStmtMC checks
    on real expanded trees that this is what Valid says (BigConsistent).                              *)
 CellVerdict(P, C, cnt) ==
-  IF C = ExtKw THEN "accept"
+  IF IsExtKw(C) THEN "accept"
   ELSE IF C \notin Keywords THEN (IF cnt = 0 THEN "accept" ELSE "reject")
   ELSE IF CellUnjudged(P, C, cnt) THEN "unjudged"
   ELSE IF C \notin DOMAIN Sub(P) THEN (IF cnt = 0 THEN "accept" ELSE "reject")
@@ -347,7 +347,7 @@ CellKind(P, C, cnt) ==
   IF C \notin Keywords THEN "unknown-keyword" ELSE IF C \notin DOMAIN Sub(P) THEN "not-allowed"
   ELSE IF cnt < Sub(P)[C][1] THEN "missing" ELSE "too-many"
 CellClass(P, C) ==
-  IF C = ExtKw THEN "ext" ELSE IF C \notin Keywords THEN "unknown" ELSE IF C \notin DOMAIN Sub(P) THEN "na"
+  IF IsExtKw(C) THEN "ext" ELSE IF C \notin Keywords THEN "unknown" ELSE IF C \notin DOMAIN Sub(P) THEN "na"
   ELSE IF Sub(P)[C] = <<0, 1>> THEN "01" ELSE IF Sub(P)[C] = <<1, 1>> THEN "11" ELSE IF Sub(P)[C] = <<0, N>> THEN "0n" ELSE "1n"
 Classes == {"ext", "unknown", "na", "01", "11", "0n", "1n"}
 FirstK(S, k) == LET q == SetToSeq(S) IN {q[i] : i \in 1..(IF Len(q) < k THEN Len(q) ELSE k)}
@@ -505,4 +505,53 @@ ExtPlan(k) ==
     blocks |-> [i \in 1..Len(names) |-> [ext |-> names[i], trees |-> SetToSeq(TreesUnder(names[i]))]],
     orders |-> SetToSeq({Append(h, "nil") : h \in {x \in [1..k -> ExtNames] : \A i, j \in 1..k : i # j => x[i] # x[j]}}),
     exts |-> [i \in 1..Len(names) |-> [name |-> names[i], cells |-> ExtTable(names[i])]]]}
+
+(* ---- the whole byte range in identifiers ----
+   ALPHA, DIGIT, "_", "-", "." are 65 of the 256 byte values; every other one - each C0 control byte, DEL, every ASCII
+   punctuation, every byte >= 0x80 - is the single fault of an otherwise valid argument, at every atom position (first /
+   later character of an identifier, of a prefix, of each step or item), for each identifier-like kind.  Printable ASCII
+   is written as itself, any other byte as the placeholder ~xHH (the renderer writes the raw byte inside the quotes).   *)
+Printable == " !\"#$%&'()*+,-./0123456789:;<=>?@ABCDEFGHIJKLMNOPQRSTUVWXYZ[\\]^_`abcdefghijklmnopqrstuvwxyz{|}"
+HexDigits == "0123456789abcdef"
+ByteStr(n) == IF n >= 32 /\ n <= 125 THEN SubSeq(Printable, n - 31, n - 31)
+              ELSE "~x" \o SubSeq(HexDigits, (n \div 16) + 1, (n \div 16) + 1) \o SubSeq(HexDigits, (n % 16) + 1, (n % 16) + 1)
+ByteBase(kind) ==
+  CASE kind = "identifier" -> "ab" [] kind = "idref" -> "pp:ab" [] kind = "absnode" -> "/ab/cd" [] kind = "descnode" -> "ab/cd"
+    [] kind \in {"key", "unique"} -> "ab cd" [] OTHER -> ""
+ByteKinds == {"identifier", "idref", "absnode", "descnode", "key", "unique"}
+\* bytes the lexer itself acts on inside a double-quoted string are left to the lexical properties (C07, C08, C10)
+ByteRange == (0..255) \ {0}
+ByteCands(kind, full) ==     \* quick: the first character of the first atom and the last character of the last one
+  LET a == ByteBase(kind)
+      all == {i \in 1..Len(a) : SubSeq(a, i, i) \notin {"/", ":", " "}}
+      pos == IF full THEN all ELSE {CHOOSE i \in all : \A j \in all : i <= j, Len(a)} IN
+  UNION {{SubSeq(a, 1, i - 1) \o ByteStr(n) \o SubSeq(a, i + 1, Len(a)) : n \in ByteRange} : i \in pos}
+
+(* ---- extension keywords drawn from the parser's own keyword tables ----
+   A prefixed keyword is an extension statement whatever its local name is: <prefix>:<name> for every RFC statement
+   name and every local name of the extensions the parser has built in (configd: / opd:) must be accepted wherever an
+   extension statement may stand - under every parent kind, in every module section, inside another extension - with
+   an argument, without one, and with a body.                                                                       *)
+RegisteredLocal == {"help", "validate", "normalize", "syntax", "priority", "allowed", "begin", "end", "create", "delete", "update",
+                    "subst", "secret", "error-message", "pattern-help", "call-rpc", "get-state", "defer-actions", "must",
+                    "argument", "augment", "command", "option", "on-enter", "inherit", "repeatable", "pass-opc-args",
+                    "privileged", "local"}
+ForeignKws == {"p:" \o n : n \in Keywords \cup RegisteredLocal}
+ExtVariant(kw, v) == IF v = "noarg" THEN Lf(kw, NoArg) ELSE IF v = "body" THEN St(kw, "x", <<Lf(ExtKw, "y"), Lf(kw, "z")>>) ELSE Lf(kw, "x")
+ExtUnder(P, kw, v) ==       \* the minimal statement of parent P carrying the extension statement
+  LET b == IF P = ExtKw THEN Lf(ExtKw, "x") ELSE PBase(P, ExtKw, 1) IN
+  Complete(Embed(Assemble(St(b.kw, b.arg, Append(b.subs, ExtVariant(kw, v))))))
+ExtParentsQuick == {"module", "container", "leaf", "type", "description", ExtKw}
+ExtNameTrees(full) ==
+  LET ps == IF full THEN ParentIds \cup {ExtKw} ELSE ExtParentsQuick IN
+  {[P |-> P, kw |-> k, v |-> "arg", tree |-> ExtUnder(P, k, "arg")] : P \in ps, k \in ForeignKws}
+  \cup {[P |-> "container", kw |-> k, v |-> v, tree |-> ExtUnder("container", k, v)] : k \in ForeignKws, v \in {"noarg", "body"}}
+  \cup {[P |-> P, kw |-> k, v |-> "arg", tree |-> ExtUnder(P, k, "arg")] : P \in ParentIds, k \in {"p:help", "p:must", "p:argument", "p:leaf", "p:priority"}}
+\* in the module's statement sequence: before the header, after it, between the sections, at the end
+HeaderBase == St("module", RootName, <<Lf("yang-version", "1"), Lf("namespace", "urn:p"), Lf("prefix", "p"), Lf("organization", "t"),
+                                      Lf("revision", "2020-02-02"), Mk("leaf", 1, "module")>>)
+ExtInSequence(full) ==
+  {[P |-> "module", kw |-> k, v |-> "gap" \o ToString(g),
+    tree |-> Complete(St("module", RootName, SubSeq(HeaderBase.subs, 1, g) \o <<Lf(k, "x")>> \o SubSeq(HeaderBase.subs, g + 1, 6)))]
+   : k \in ForeignKws, g \in (IF full THEN 0..6 ELSE {0, 3, 5})}
 =============================================================================
